@@ -112,14 +112,19 @@ def draw_config(g, method=None, pipe=None, flow_type=None, cap_bh=144):
     ph = GP.draw_phys(g, pipe)
     geo = draw_geometry(g, method, cap_bh=cap_bh)
     hmin = float(round(g.uniform(25, 80), 1))
-    hmax = float(round(hmin + g.choice([1.0, 10.0, 40.0, 75.0, 150.0, 300.0]), 1))
+    hmax = float(round(hmin + g.choice([1.0, 10.0, 40.0, 75.0, 150.0, 300.0], p=[0.05, 0.1, 0.15, 0.2, 0.25, 0.25]), 1))
     hmax = min(hmax, 400.0)
     geo["max_height"] = hmax
     geo["min_height"] = hmin
     tg = ph["soil"]["undisturbed_temp"]
+    ft = flow_type or str(g.choice(["BOREHOLE", "SYSTEM"]))
+    v = GP.draw_flow(g, pipe) if g.random() < 0.3 else float(round(g.uniform(0.2, 0.8), 3))
+    if ft == "SYSTEM":
+        # a system flow is shared by all boreholes: scale the per-borehole draw by a typical field size
+        v = float(round(v * float(g.choice([4, 9, 16, 30, 60])), 3))
     design = {
-        "flow_rate": GP.draw_flow(g, pipe) if g.random() < 0.3 else float(round(g.uniform(0.2, 0.8), 3)),
-        "flow_type": flow_type or str(g.choice(["BOREHOLE", "SYSTEM"])),
+        "flow_rate": v,
+        "flow_type": ft,
         "max_eft": float(round(tg + g.uniform(8, 22), 1)),
         "min_eft": float(round(tg - g.uniform(5, 14), 1)),
     }
